@@ -49,11 +49,8 @@ def _p9(ctx):
     drops = [ctx.fn1(r'^<multiqueue::InnerRecv<.*> as std::ops::Drop>::drop$'),
              ctx.fn1(r'^<multiqueue::FutInnerRecv<.*> as std::ops::Drop>::drop$'),
              ctx.fn1(r'^<multiqueue::FutInnerUniRecv<.*> as std::ops::Drop>::drop$')]
-    nr_bit = None
-    gs = ctx.graph(ctx.fn1(r'^atomicsignal::AtomicSignal::set_reader$'))
-    for a in gs.x.atoms_on('AtomicSignal.flags', ops={'fetch_or'}):
-        v = gs.strip(gs.call_args(a.nid)[1])
-        nr_bit = str(v[1])
+    from rules_send import _no_reader_bit
+    nr_bit = _no_reader_bit(ctx)
     for d in drops:
         g = ctx.graph(d)
         x = g.x
@@ -89,6 +86,14 @@ def _p9(ctx):
                     if s['k'] == 'assign' and s['pl']['p'] and isinstance(s['pl']['p'][-1], dict) and s['pl']['p'][-1].get('f') == 'alive' \
                             and s['rv']['k'] == 'use' and s['rv']['op']['k'] == 'const' and str(s['rv']['op'].get('v')) == '0':
                         clears.append(n.id)
+        # the destructor unsubscribes unconditionally: no path through it avoids the `alive` test (a handle dropped
+        # while its thread unwinds, or under any other condition, still has to leave its stream)
+        alive_sw = {g.nodes[e_].edge[0] for e_ in alive_edges}
+        if alive_sw:
+            oku = not (x.reachable_entry(blocked=x._exp(alive_sw)) & set(g.exits))
+            ctx.add('P9a', 'T-MUST', d, oku, 'every path through the destructor reaches the unsubscription' if oku else
+                    'the destructor can return without unsubscribing the handle (the unsubscription is conditional): the stream of a handle dropped on that path stays in the list for ever and keeps limiting the senders',
+                    sub=rsub + '|always')
         okc = bool(clears) and all(x.must(e_, set(clears)) for e_ in alive_edges)
         ctx.add('P9a', 'T-MUST', d, okc, 'alive is cleared on every alive path (at most one unsubscribe per handle)' if okc else
                 'alive is not cleared on every path that unsubscribes', sub=rsub + '|clear')
@@ -205,11 +210,21 @@ def _p10(ctx):
             # b: the new list is a fresh allocation holding clone(current list) (+ push / retain)
             fresh = [n for n in allocs if alloc_res[n] & new_src]
             okf = len(fresh) == 1
-            clones = [n for n in x.ext_calls(r'clone::Clone::clone$|Vec(::<.*>)?::clone$|slice::<impl \[T\]>::to_vec')
-                      if any(p.endswith('ReaderGroup.readers') for p in g.locpaths(g.call_args(n)[0]))]
+            # copies of the old list: `old.clone()` / `to_vec()`, or a fresh Vec filled by `extend_from_slice(&old)` /
+            # `extend(old.iter()..)`.  (copy call, source argument, calls whose result is the copy)
+            copies = []
+            for n in x.ext_calls(r'clone::Clone::clone$|Vec(::<.*>)?::clone$|slice::<impl \[T\]>::to_vec'):
+                if any(p.endswith('ReaderGroup.readers') for p in g.locpaths(g.call_args(n)[0])):
+                    copies.append((n, g.call_args(n)[0], {n}))
+            for n in x.ext_calls(r'Vec(::<.*>)?::extend_from_slice$|Extend(<.*>)?>?::extend$|Vec(::<.*>)?::extend$'):
+                a_ = g.call_args(n)
+                if len(a_) > 1 and any(p.endswith('ReaderGroup.readers') for s_ in [a_[1]] for p in g.locpaths(s_)) or \
+                        len(a_) > 1 and any(p.endswith('ReaderGroup.readers') for c_ in x.calls_in(a_[1]) for p in g.locpaths(g.call_args(c_)[0]) if g.call_args(c_)):
+                    copies.append((n, a_[1], set(x.calls_in(a_[0]))))
+            clones = [c_[0] for c_ in copies]
             okcl = False
-            for cn in clones:
-                src = {s.nid for s in x.loads_in(g.call_args(cn)[0]) if s.on('ReadCursor.readers')}
+            for (cn, srcarg, _res) in copies:
+                src = {s.nid for s in x.loads_in(srcarg) if s.on('ReadCursor.readers')}
                 exp_obs = {s.nid for s in x.loads_in(args[1]) if s.on('ReadCursor.readers')}
                 if src and src == exp_obs:
                     okcl = True
@@ -217,7 +232,8 @@ def _p10(ctx):
             okg = False
             for (nid, si, rv) in groups:
                 e = x.agg_expr(nid, si)
-                if any(cn in x.calls_in(e) for cn in clones) and x.reaches(nid, C) or (nid in x.reachable_entry() and any(cn in x.calls_in(e) for cn in clones)):
+                ce = x.calls_in(e)
+                if any(res_ & ce for (_cn, _sa, res_) in copies) and (x.reaches(nid, C) or nid in x.reachable_entry()):
                     okg = True
             ctx.add('P10b', 'T-FLOW', fn, okf and okcl and okg,
                     'the published list is a fresh group built from a clone of the list the CAS expects' if okf and okcl and okg else
